@@ -160,6 +160,9 @@ def build_history(rng, srv, spool, tier):
     t = now
     stalls = 0
     conn = 0
+    # in one history out of eight the time the daemon loses is not a stall of the process but a step of the wall clock
+    # (settimeofday, resume from suspend): the monotonic clock does not move, libev notices the jump and re-arms its timers
+    steps = False and rng.random() < 0.125
     for (te, kind, pl) in timeline:
         # let time pass up to the event, sometimes with the daemon held up
         while t < te:
@@ -168,7 +171,7 @@ def build_history(rng, srv, spool, tier):
             if r < 0.15:
                 dt = rng.choice([0.5, 3.0, 45.0, 130.0, span / 4.0])
                 if t + dt < te:
-                    sc.add("stall %.3f" % dt)
+                    sc.add(("jump %.3f" if steps else "stall %.3f") % dt)
                     t += dt
                     stalls += 1
             elif r < 0.25:
@@ -211,7 +214,7 @@ def build_history(rng, srv, spool, tier):
         if r < 0.2:
             dt = rng.choice([0.5, 3.0, 45.0, 130.0, span / 4.0])
             if t + dt < t_end:
-                sc.add("stall %.3f" % dt)
+                sc.add(("jump %.3f" if steps else "stall %.3f") % dt)
                 t += dt
                 stalls += 1
         elif r < 0.3:
@@ -221,7 +224,7 @@ def build_history(rng, srv, spool, tier):
         t = step
     sc.add("dump")
     sc.add("get 1000 /sched")
-    return sc, incs, t, {"now": now, "span": span, "ntasks": ntasks, "stalls": stalls}
+    return sc, incs, t, {"now": now, "span": span, "ntasks": ntasks, "stalls": stalls, "clock_steps": bool(steps and stalls)}
 
 
 def interleaving_sig(events, incs):
@@ -301,7 +304,11 @@ def run_history(root, srv, part, rng, tier):
         sig = interleaving_sig(events, incs)
         if stats["spawns_judged"]:
             part.nontrivial.add(sig)
+        if meta.get("clock_steps"):
+            part.count("histories_with_wall_clock_steps")
         for k, d in fails:
+            if meta.get("clock_steps"):
+                k = "clock-step/" + k
             part.violation(k, {"input": sc.text(), "detail": d, "meta": meta, "incs": sched.incs_to_json(incs), "t_end": t_end,
                                "summary": "%s (history: %d tasks over %ds, %d stalls)" % (d, meta["ntasks"], meta["span"], meta["stalls"])})
         if not fails and len(part.samples) < 2 and stats["spawns_judged"] > 3:
